@@ -208,7 +208,7 @@ fn judge_full(rec: &Rec, total: u32) -> Option<(String, String)> {
     let len = total as u64 * rec.bps as u64;
     // small volumes are formatted over garbage (0xA5): whatever formatting must initialise but does not shows up;
     // huge ones over zeros (their zero-filled FATs would not fit in memory otherwise)
-    let garbage = len <= 64 << 20;
+    let garbage = len <= 2 << 30;
     let base = Arc::new(Base::Proc { len, f: Box::new(move |_, out| out.fill(if garbage { 0xA5 } else { 0 })) });
     let (st, mut dev) = new_dev(&base);
     st.borrow_mut().sparse_zero = !garbage;
@@ -342,6 +342,8 @@ pub fn run(tier: &str) -> i32 {
             }
             let szs = sizes(rec);
             let mut full_budget = if th { 40 } else { 10 };
+            // volumes between 64 MiB and 1 GiB (the smallest FAT32 volumes with clusters larger than a sector)
+            let mut big_budget = if th { 6 } else { 2 };
             for &t in &szs {
                 evals.fetch_add(1, Ordering::Relaxed);
                 let r = hook(rec, t);
@@ -365,7 +367,9 @@ pub fn run(tier: &str) -> i32 {
                         }
                         // full format: all small volumes, and a budget of larger ones per record
                         let bytes = t as u64 * rec.bps as u64;
-                        let do_full = bytes <= 2 << 20 || (bytes <= 64 << 20 && full_budget > 0 && { full_budget -= 1; true });
+                        let do_full = bytes <= 2 << 20
+                            || (bytes <= 64 << 20 && full_budget > 0 && { full_budget -= 1; true })
+                            || (bytes > 64 << 20 && bytes <= 1 << 30 && big_budget > 0 && { big_budget -= 1; true });
                         if do_full && Instant::now() < deadline {
                             fulls.fetch_add(1, Ordering::Relaxed);
                             if let Some(x) = judge_full(rec, t) {
